@@ -330,7 +330,7 @@ Proof.
       * intros c gl Hc [A B C D E F G I]. constructor; auto.
       * eapply Forall_impl; [|exact Hb]. simpl. intros c (A & B & C). lia.
   - (* Retry *)
-    unfold Inv in *. destruct (stack s) as [|c st] eqn:Hst; auto. rewrite Hst in H.
+    unfold Inv in *. destruct (stack s) as [|c st] eqn:Hst; [rewrite Hst; exact H|].
     destruct g as [|gl g]; simpl in H; [contradiction|].
     destruct H as (Hl & Hs & Hord & Hrest). simpl. rewrite Hst.
     destruct Hl as [A B C D E F G I].
@@ -349,10 +349,10 @@ Proof.
         -- rewrite skipn_all2 by (rewrite firstn_length; lia). constructor.
     + apply (levels_ok_same (heap s) (loc s) (trail s) (hb s) _ _ _ _
                (fun c' => cp_tr c' <= cp_tr c /\ cp_h c' <= cp_h c)); auto.
-      intros c' gl' Hc' Hl'. apply level_ok_deeper; auto.
+      intros c' gl' Hc' Hl'. apply (level_ok_deeper _ _ _ (hb s)); auto.
   - (* Trust *)
-    unfold Inv in *. destruct (stack s) as [|c st] eqn:Hst; rewrite Hst in H.
-    { destruct g; simpl in *; auto; contradiction. }
+    unfold Inv in *. destruct (stack s) as [|c st] eqn:Hst.
+    { rewrite Hst. destruct g; simpl in *; auto; contradiction. }
     destruct g as [|gl g]; simpl in H; [contradiction|].
     destruct H as (Hl & Hs & Hord & Hrest). simpl.
     destruct Hl as [A B C D E F G I].
@@ -360,10 +360,10 @@ Proof.
     { rewrite F. auto. }
     apply (levels_ok_same (heap s) (loc s) (trail s) (hb s) _ _ _ _
              (fun c' => cp_tr c' <= cp_tr c /\ cp_h c' <= cp_h c)); auto.
-    intros c' gl' Hc' Hl'. apply level_ok_deeper; auto.
+    intros c' gl' Hc' Hl'. apply (level_ok_deeper _ _ _ (hb s)); auto.
   - (* Cut *)
-    unfold Inv in *. destruct (stack s) as [|c st] eqn:Hst; rewrite Hst in H.
-    { destruct g; simpl in *; auto; contradiction. }
+    unfold Inv in *. destruct (stack s) as [|c st] eqn:Hst.
+    { rewrite Hst. destruct g; simpl in *; auto; contradiction. }
     destruct g as [|gl g]; simpl in H; [contradiction|]. simpl. apply H.
 Qed.
 
@@ -374,8 +374,9 @@ Proof. unfold run, run_gen. apply fold_left_app. Qed.
 
 Theorem Inv_run ops : forall s g, Inv s g -> Inv (run ops s) (grun ops s g).
 Proof.
-  induction ops as [|o r IH]; intros s g H; simpl; auto.
-  rewrite run_cons. apply IH. apply Inv_step. exact H.
+  induction ops as [|o r IH]; intros s g H.
+  - exact H.
+  - rewrite run_cons. simpl grun. apply IH. apply Inv_step. exact H.
 Qed.
 
 Lemma Inv_empty s : stack s = [] -> Inv s [].
@@ -418,7 +419,7 @@ Lemma Forall2_trans_rel ops o l1 l2 l3 :
 Proof.
   intros H. revert l3. induction H as [|a b l1 l2 Hab H IH]; intros l3 H3; inversion H3 as [|? c ? l3' H2 H3']; subst; constructor; auto.
   destruct Hab as (S1 & P1 & B1). destruct H2 as (S2 & P2 & B2).
-  unfold has_put, has_bput in *. simpl in *. split; [|split].
+  unfold grel, has_put, has_bput in *. simpl in *. split; [|split].
   - congruence.
   - intros k Hk. destruct (P1 k Hk) as [Hb|Hb].
     + destruct (P2 k Hb) as [Hc|Hc]; auto. right. rewrite orb_false_r in Hc. rewrite Hc. reflexivity.
@@ -502,7 +503,10 @@ Qed.
 Lemma ball_run_try ops : forall s, ball (run ops (step s Try)) = ball (run ops s).
 Proof.
   induction ops as [|o r IH] using rev_ind; intros s; auto.
-  rewrite !run_app. simpl. rewrite !run_cons. simpl. rewrite !ball_step, IH. reflexivity.
+  rewrite !run_app.
+  change (run [o] (run r (step s Try))) with (step (run r (step s Try)) o).
+  change (run [o] (run r s)) with (step (run r s) o).
+  rewrite !ball_step, IH. reflexivity.
 Qed.
 
 (* ------------------------------------------------------------------ the main statement *)
@@ -518,14 +522,13 @@ Theorem undo_all s g ops :
   exists g', Inv s2 g' /\ map g_snap g' = map g_snap g.
 Proof.
   intros HI Hb. unfold after_failure.
-  pose proof (Inv_step s g Try HI) as H1. simpl gstep in H1.
-  set (gl0 := {| g_snap := s; g_puts := []; g_bputs := [] |}) in *.
-  pose proof (Inv_run ops _ _ H1) as H2.
+  set (gl0 := {| g_snap := s; g_puts := []; g_bputs := [] |}).
+  pose proof (Inv_step s g Try HI) as H1. change (gstep s g Try) with (gl0 :: g) in H1.
   pose proof (grun_rel ops (step s Try) (gl0 :: g) 0 0 Hb) as HR. simpl skipn in HR.
-  pose proof (Inv_step _ _ Trust H2) as H3.
-  remember (grun ops (step s Try) (gl0 :: g)) as g2 eqn:Hg.
-  inversion HR as [|gl ? g2' ? Hrel Hrest Hg2]; subst g2.
-  rewrite <- Hg2 in H2, H3.
+  pose proof (Inv_run ops _ _ H1) as H2.
+  destruct (grun ops (step s Try) (gl0 :: g)) as [|gl g2'] eqn:Hg; [inversion HR|].
+  pose proof (Inv_step _ _ Trust H2) as HT. simpl gstep in HT.
+  inversion HR as [|? ? ? ? Hrel Hrest Ea Eb]; subst.
   destruct Hrel as (Hsn & Hpu & Hbp). simpl in Hsn, Hpu, Hbp.
   remember (run ops (step s Try)) as s1 eqn:Hs1.
   destruct (stack s1) as [|c st] eqn:Hst.
@@ -539,7 +542,7 @@ Proof.
   - intros k Hk. apply R4. intros Hin. destruct (Hpu k Hin) as [[]|Hp]. congruence.
   - intros k Hk Hn. apply R5; auto. intros Hin. destruct (Hbp k Hin) as [[]|Hp]. congruence.
   - subst s1. apply ball_run_try.
-  - exists g2'. split. { exact H3. }
+  - exists g2'. split. { exact HT. }
     clear - Hrest. induction Hrest as [|a b l1 l2 Hab H IH]; simpl; auto.
     destruct Hab as (E & _). rewrite E, IH. reflexivity.
 Qed.
